@@ -8,7 +8,7 @@ from typing import List
 
 from . import report as R
 
-CONTROLLED = ("ORD-2", "ORD-4", "STORE-1")
+CONTROLLED = ("ORD-2", "ORD-4", "ORD-5", "STORE-1")
 
 
 def run(rule_ids: List[str]) -> List[str]:
